@@ -13,11 +13,11 @@ CLAUSES = {
     "C07": ("complete-vaa-rejected-on-chain",),
     "C06": ("stored-vaa-not-quorum-verifiable",),
     "C02": ("signed-digest-differs-from-message", "signed-under-foreign-address", "published-without-local-observation", "published-twice", "not-published-at-quorum",
-            "published-vaa-not-quorum-verifiable", "own-observation-not-looped-back", "local-observation-not-signed", "published-vaa-not-stored",
+            "published-vaa-not-quorum-verifiable", "own-observation-not-looped-back", "local-observation-not-signed", "published-vaa-not-stored", "rerun-lost-aggregation-state",
             "governance-emitter-signed", "signed-without-guardian-set"),
     "C14": ("pending-entry-discarded-early", "no-retry-when-due", "retry-too-early", "unobserved-entry-not-expired",
             "completed-entry-not-expired", "unexpected-reobservation-request", "retry-budget-exceeded",
-            "no-reobservation-request-when-due", "cleanup-blocked-on-full-request-queue", "retry-budget-refilled"),
+            "no-reobservation-request-when-due", "cleanup-blocked-on-full-request-queue", "retry-budget-refilled", "rerun-lost-aggregation-state"),
     "C17": ("cleanup-blocked-on-full-request-queue", "cleanup-stalled-on-full-request-queue"),
     "C03": ("invalid-observation-changed-state",),
 }
